@@ -899,3 +899,43 @@ impl Axecutor {
         self.internal_mem_read_128(address)
     }
 }
+
+// Verification hook H5: structured view / construction of memory areas (no effect on ordinary builds)
+#[cfg(any(kani, ax_verif))]
+impl MemoryArea {
+    pub(crate) fn verif_new(
+        name: Option<String>,
+        start: u64,
+        length: u64,
+        data: Vec<u8>,
+        access: u32,
+    ) -> Self {
+        Self {
+            name,
+            start,
+            length,
+            data,
+            access,
+        }
+    }
+
+    pub(crate) fn verif_start(&self) -> u64 {
+        self.start
+    }
+
+    pub(crate) fn verif_length(&self) -> u64 {
+        self.length
+    }
+
+    pub(crate) fn verif_access(&self) -> u32 {
+        self.access
+    }
+
+    pub(crate) fn verif_data(&self) -> &Vec<u8> {
+        &self.data
+    }
+
+    pub(crate) fn verif_name(&self) -> &Option<String> {
+        &self.name
+    }
+}
